@@ -64,6 +64,8 @@ Proof.
   unfold holds; intros. destruct (e_tgt e); [|discriminate].
   destruct (target_eqb_spec t0 t); congruence.
 Qed.
+Lemma holds_refl : forall t w, holds (mk_entry (Some t) w) t = true.
+Proof. intros. unfold holds. simpl. apply target_eqb_refl. Qed.
 Lemma entry_eta : forall e t, e_tgt e = Some t -> e = mk_entry (Some t) (e_weak e).
 Proof. destruct e; simpl; intros; subst; auto. Qed.
 
@@ -360,7 +362,7 @@ Lemma proxy_reaches_same_object : forall h o i x,
 Proof.
   intros h o i x. pose proof (Inv_final h) as [M _ _]. simpl. unfold do_return.
   destruct (pd (final qn h) (PObj o)) eqn:Hpd; [|discriminate].
-  destruct (M _ Hpd) as (j & w & P & L). rewrite P, L. intro E. injection E as <- <-.
+  destruct (M _ Hpd) as (j & w & P & L). rewrite P, L, holds_refl. simpl. intro E. injection E as <- <-.
   split; auto. exists w. auto.
 Qed.
 
@@ -376,7 +378,7 @@ Lemma return_never_fails : forall h o e, snd (step qn (final qn h) (Return o)) <
 Proof.
   intros h o e. pose proof (Inv_final h) as [M _ _]. simpl. unfold do_return.
   destruct (pd (final qn h) (PObj o)) eqn:Hpd; [|discriminate].
-  destruct (M _ Hpd) as (j & w & P & L). rewrite P, L. discriminate.
+  destruct (M _ Hpd) as (j & w & P & L). rewrite P, L, holds_refl. discriminate.
 Qed.
 
 (* ---- "for as long as registered": a registration, together with the object's marks, survives
@@ -470,7 +472,7 @@ Proof.
   { subst s. unfold final. rewrite run_fst_app, run_fst_cons. apply settled_run; auto.
     - apply Inv_step. apply Inv_final.
     - simpl in *. apply register_settles; auto. }
-  simpl. rewrite L. split; auto. intros ->. unfold do_return. rewrite D, P, L. auto.
+  simpl. rewrite L. split; auto. intros ->. unfold do_return. rewrite D, P, L, holds_refl. auto.
 Qed.
 
 (* ---- ids become known only by registration ---- *)
@@ -596,8 +598,6 @@ Proof.
   congruence.
 Qed.
 
-Lemma holds_refl : forall t w, holds (mk_entry (Some t) w) t = true.
-Proof. intros. unfold holds. simpl. apply target_eqb_refl. Qed.
 
 Lemma unreg_id_daemon_id : forall s, unreg_id qn s IdDaemon = s.
 Proof. reflexivity. Qed.
@@ -854,7 +854,7 @@ Lemma proxy_iff_registered : forall h o i, unaliased (PObj o) h = true ->
 Proof.
   intros h o i Hu. split.
   - intros [w L]. destruct (Own_final _ _ Hu) as [O1 _]. destruct (O1 i w L) as [P D].
-    simpl. unfold do_return. rewrite D, P, L. auto.
+    simpl. unfold do_return. rewrite D, P, L, holds_refl. auto.
   - intro R. apply proxy_reaches_same_object in R. tauto.
 Qed.
 
@@ -896,4 +896,18 @@ Proof.
     apply (inv_fresh _ HI) in L. exfalso. apply (Nat.lt_irrefl _ L).
   - exists w. unfold commit; simpl. apply lookup_set_same.
   - intros j Hne. unfold commit; simpl. rewrite R1. apply lookup_set_other; auto.
+Qed.
+
+(* ---- what uriFor(obj) / proxyFor(obj) report ---- *)
+Lemma uri_names_own_registration : forall s t i,
+  (snd (step qn s (UriObj t)) = RUri i \/ snd (step qn s (ProxyObj t)) = RUri i) -> registered_at s i t.
+Proof.
+  intros s t i. simpl. unfold uri_obj. intro H. assert (X : match pid s t with
+    | Some i0 => match lookup i0 (reg s) with
+                 | Some e => if holds e t || false then RUri i0 else RErr EDaemonError
+                 | None => RErr EDaemonError end
+    | None => RErr EDaemonError end = RUri i) by (destruct H; auto). clear H.
+  destruct (pid s t) as [j|]; [|discriminate]. destruct (lookup j (reg s)) as [e|] eqn:L; [|discriminate].
+  destruct (holds e t) eqn:H; simpl in X; [|discriminate]. injection X as <-.
+  exists (e_weak e). rewrite L. f_equal. apply entry_eta. apply holds_true; auto.
 Qed.
